@@ -23,6 +23,12 @@ Mk(cont, n, stack, term, feat, b) == MkN(cont, n, stack, term, feat, <<>>, b)
 
 Terms == {"for_each", "try_for_each", "collect", "collect_result"}
 
+\* what the source stream reports as its size hint: <<lower, upper or -1>> (exact, absent, over-estimated, "anything")
+SrcHints == {<<2, 2>>, <<0, -1>>, <<0, 5>>, <<0, 1000000>>}
+CfgsHint(rec, feats) ==
+  {[srcHint |-> h] @@ Mk("co", 0, st, "collect", f, B(rec, 0, 1, 0, 0, 0, 0, FALSE, FALSE)) : h \in SrcHints, f \in feats,
+      st \in {<<Ad("take", 1), Ad("limit", 2), Ad("map", 0)>>, <<Ad("limit", 3), Ad("take", 3), Ad("limit", 0)>>}}
+
 CfgsQuick ==
   {Mk("co", 0, <<Ad("limit", 1)>>, t, "std", B(FALSE, 1, 2, 1, 0, 0, 1, TRUE, FALSE)) : t \in {"for_each", "try_for_each"}}
   \cup {Mk("co", 0, <<Ad("map", 0)>>, t, "std", B(FALSE, 1, 2, 1, 0, 0, 0, FALSE, FALSE)) : t \in {"collect", "collect_result"}}
@@ -30,6 +36,7 @@ CfgsQuick ==
   \cup {Mk("vec", 2, <<Ad("take", 0)>>, "collect", "std", B(FALSE, 1, 0, 1, 0, 0, 0, FALSE, FALSE))}
   \cup {MkN("co", 0, <<Ad("limit", 2)>>, t, "std", nv, B(FALSE, 1, 2, 1, 0, 1, 0, FALSE, FALSE)) : t \in {"for_each", "collect_result"}, nv \in {<<0>>, <<1>>}}
   \cup {Mk("co", 0, <<Ad("limit", 2), Ad("map", 0)>>, t, "std", B(FALSE, 1, 2, 2, 1, 0, 1, FALSE, FALSE)) : t \in {"for_each", "try_for_each"}}
+  \cup CfgsHint(FALSE, {"std"})
 
 CfgsThorough == CfgsQuick \cup
   {Mk("co", 0, st, t, "std", B(FALSE, 1, 2, 2, 1, 1, 1, TRUE, TRUE)) : t \in Terms,
@@ -41,6 +48,7 @@ CfgsGenQ ==
   \cup {Mk("vec", 2, <<Ad("enumerate", 0), Ad("take", 1)>>, t, f, B(TRUE, 1, 0, 1, 0, 0, 0, FALSE, FALSE)) : t \in Terms, f \in {"std", "alloc"}}
   \cup {MkN("co", 0, <<Ad("limit", 2)>>, t, f, nv, B(TRUE, 1, 2, 1, 0, 0, 0, FALSE, FALSE)) : t \in {"for_each", "collect_result"}, f \in {"std", "alloc"}, nv \in {<<0>>, <<1>>}}
   \cup {Mk("co", 0, <<Ad("limit", 2), Ad("map", 0)>>, t, f, B(TRUE, 1, 2, 1, 0, 0, 1, FALSE, FALSE)) : t \in {"for_each", "try_for_each"}, f \in {"std", "alloc"}}
+  \cup CfgsHint(TRUE, {"std", "alloc"})
 CfgsGen == CfgsGenQ \cup
   {Mk("co", 0, st, t, f, B(TRUE, 1, 2, 1, 0, 0, 1, TRUE, TRUE)) : t \in Terms, f \in {"std", "alloc"},
       st \in {<<Ad("limit", 1), Ad("map", 0)>>, <<Ad("enumerate", 0), Ad("map", 0), Ad("take", 1)>>}}
